@@ -113,6 +113,11 @@ int main(int argc, char **argv)
 			continue;
 		}
 		std::string why;
+		if (H.timeout && !H.deadlock)
+		{	// real-time guard of the transport fired although nobody was blocked: machine load, not a verdict
+			printf("{\"t\":\"error\",\"what\":\"real-time guard fired in %s (machine too slow?)\"}\n", jesc(caseid).c_str());
+			continue;
+		}
 		if (!H.accept || H.deadlock || H.timeout || (c->post && !c->post(why)))
 		{
 			R.viol("c05/" + c->family + "/baseline", "the unmodified transcript is not accepted (completeness): " + H.brief() + " " + why, caseid);
